@@ -305,10 +305,10 @@ def digital_tjm(
 
                 dag.remove_op_node(node)
 
-        # Process measurement barriers (only when sampling layers in strong sim)
-        if isinstance(sim_params, StrongSimParams) and sim_params.sample_layers:
-            for measure_barrier in measure_barriers:
-                dag.remove_op_node(measure_barrier)
+        # Process measurement barriers: always consume them, sample only when sampling layers in strong sim
+        for measure_barrier in measure_barriers:
+            dag.remove_op_node(measure_barrier)
+            if isinstance(sim_params, StrongSimParams) and sim_params.sample_layers:
                 col_idx += 1
                 state.evaluate_observables(sim_params, results, col_idx)
 
